@@ -10,6 +10,7 @@ def run(ck, progs):
     ck.rule("C18.3", "singular points: floating divisors exclude 0, log arguments are strictly positive, sqrt arguments non-negative, by exact "
                      "intervals with branch refinement from Random() in [0,1); a violating endpoint must be admitted by every test on the way")
     ck.rule("C18.4", "Poisson() is finite and non-negative; RandomRange stays within [min,max] on representative argument pairs, for every generator state")
+    ck.rule("C18.6", "a double is converted to an integer only where it fits: an upper-bound test of it holds on every path to the conversion, or its value at the extreme draws of Random() (evaluated in double arithmetic for sampled arguments) is in range")
     ck.rule("C18.5", "the library writes only its locals and the calling LP's generator state; no static or file-scope mutable state; all draws go through RandomU64()")
     ck.assume("doubles are treated as reals: rounding and underflow are ignored")
     for cfg, P in progs.items():
@@ -17,4 +18,5 @@ def run(ck, progs):
         N.check_shift_widths(ck, P, "C18.2", only_files=("lib/random/random.c", "lib/random/xoroshiro.h", "lib/random/xxtea.c"))
         N.check_singular_points(ck, P, "C18.3")
         N.check_return_ranges(ck, P, "C18.4")
+        N.check_float_to_int(ck, P, "C18.6")
         N.check_generator_isolation(ck, P, "C18.5")
